@@ -88,6 +88,7 @@ def run(chk):
     bundled(chk, rng, thorough)
     two_parameters(chk)
     array_parameters(chk)
+    derived_endpoint_history(chk)
     return chk.finish(
         rule="cases = stacks of up to three activations of MC_C11 (context, keyword parameter) realised through nine activation forms, 16 "
              "probe conversions each compared with the specification's admissible set; distinct by activation sequence; non-trivial = at "
@@ -318,6 +319,40 @@ def two_parameters(chk):
             # context's 2 or the inner context's 1: the statement does not say which, both are admitted); k likewise
             if got not in want:
                 chk.diverge({"clause": "parameter-resolution", "form": form, "inner_keywords": sorted(inner_kw)}, {"outer_n": outer_n, "inner": inner_kw, "expected": sorted(want), "observed": str(got)})
+
+
+def derived_endpoint_history(chk):
+    """a rule whose endpoints were written as *derived* dimensions ([V] = [A] / [T]) in a context built by program: every activation
+    applies it, with the keyword of the call or else the declared default - whatever the earlier activations of the same context
+    were given (sequences of three activations, with and without a keyword, per-call and with-block forms)"""
+    import itertools
+    import pint
+    lines = ["a = [A]", "t = [T]", "b = [B]", "[V] = [A] / [T]", "v = a / t"]
+    for form in ("per-call", "with"):
+        for seq in itertools.product((None, 2, 5), repeat=3):
+            chk.case(("derived-endpoint-history", form, seq), nontrivial=True)
+            u = pint.UnitRegistry(lines, non_int_type=F)
+            c = pint.Context("c", defaults={"k": 1})
+            c.add_transformation("[V]", "[B]", lambda ureg, x, k: x * k * ureg.Quantity(1, "b / v"))
+            u.add_context(c)
+            q = u.Quantity(F(3), "v")
+            for i, k in enumerate(seq):
+                kw = {} if k is None else {"k": k}
+                try:
+                    if form == "per-call":
+                        got = q.to("b", "c", **kw).magnitude
+                    else:
+                        with u.context("c", **kw):
+                            got = q.to("b").magnitude
+                            comp = q.is_compatible_with("b")
+                        if not comp:
+                            got = "not-compatible"
+                except Exception as e:
+                    got = "raises " + type(e).__name__
+                if got != 3 * (k or 1):
+                    chk.diverge({"clause": "derived-endpoint-history", "form": form, "keyword_now": k is not None, "keyword_first": seq[0] is not None},
+                                {"registry": lines, "keywords": list(seq[:i + 1]), "expected": 3 * (k or 1), "observed": str(got)})
+                    break
 
 
 def array_parameters(chk):
